@@ -279,6 +279,71 @@ def h_trts_approx(ctx):
            and_(isinstance(out, tuple) and len(out) == 3 and all(x is None for x in out), or_(c > 1, c < -1)))
 
 
+def _interpol_cuts():
+    from pyvc.values import Num, and_, floor_
+    from pyvc.interp import PathStop
+    G = _F + ".<locals>.interpol"
+
+    def raw(which):
+        def cut(it, frame):
+            it.info.setdefault("ipl", {})[which + "_raw"] = Num.of(frame.locals[which])
+            return True
+        return cut
+
+    def red(which):
+        def cut(it, frame):
+            v = Num.of(frame.locals[which])
+            r = it.info["ipl"][which + "_raw"]
+            L = frame.locals
+            y = [Num.of(L[k].fields["_deg"]) for k in ("y1", "y2", "y3")]
+            want = (y[1] - y[0]) if which == "a" else (y[2] - y[1])
+            t = (v - want) / 360
+            it.vc("interpol: %s is the first difference %s" % (which, "y2 - y1" if which == "a" else "y3 - y2"), r == want)
+            it.vc("interpol: %s reduced into [-180, 180] by whole turns" % which, and_(v >= -180, v <= 180, t == floor_(t)))
+            it.info["ipl"][which] = v
+            return True
+        return cut
+
+    def done(it, frame):
+        # back in times_rise_transit_set: the first interpolated right ascension
+        L = frame.locals
+        ipl = it.info["ipl"]
+        a, b = ipl["a"], ipl["b"]
+        n = Num.of(L["n"])
+        y2 = Num.of(L["alpha2"].fields["_deg"])
+        spec = y2 + n * (a + b + n * (b - a)) / 2
+        got = Num.of(L["transit_alpha"].fields["_deg"])
+        t = (got - spec) / 360
+        it.vc("interpol: result == y2 + n (a + b + n (b - a)) / 2  (Meeus 3.3, mod 360 deg)", t == floor_(t))
+        raise PathStop("interpolation examined")
+    return {(G, "a", 1): raw("a"), (G, "b", 1): raw("b"), (G, "a", 2): red("a"), (G, "b", 2): red("b"),
+            (_F, "transit_alpha", 1): done}
+
+
+def _interpol_contracts():
+    c = _trts_contracts(True)()
+    del c[TRTS + ".<locals>.interpol"]
+    return c
+
+
+@P.harness("times_rise_transit_set/interpol", contracts=_interpol_contracts, cuts=_interpol_cuts,
+           functions=[TRTS], axioms=("pi", "trig-range", "inverse-range", "cos-sign"), crosscheck=0, timeout=60, branch_timeout_ms=80)
+def h_trts_interpol(ctx):
+    """the inner interpol() (the contract assumed by the transit-step harness): both first differences of the three tabulated
+    values are reduced into [-180, 180] by whole turns (so a right ascension passing through 0h interpolates correctly) and
+    the result is Meeus' (3.3) y2 + n (a + b + n c) / 2 (mod 360 deg)"""
+    from pyvc.api import PyRaise
+    A, args = _trts_inputs(ctx)
+    if ctx.native:
+        return _trts_native(ctx, A, args)
+    try:
+        ctx.call(TRTS, *args)
+    except PyRaise as ex:
+        if ex.cls == "ZeroDivisionError":
+            return
+        raise
+
+
 def _step_cuts():
     from pyvc.values import Num, and_
     from pyvc.api import sin_, cos_, radians_
@@ -480,11 +545,15 @@ def b_general(rng, tier):
         ra2 = rng.uniform(0.0, 360.0)
         de2 = rng.uniform(-89.0, 89.0)
         dra = rng.uniform(-1.5, 1.5)
+        if i % 4 == 0:
+            # right ascensions given in [0, 360) that wrap through 0h between the previous and the current day or between
+            # the current and the following day
+            ra2 = (rng.uniform(-1.0, 1.0) * abs(dra)) % 360.0
         dde = rng.uniform(-0.4, 0.4)
         h0 = rng.choice((-0.5667, -0.8333, 0.125))
         theta0 = rng.uniform(0.0, 360.0)
-        args = (Angle(lonw), Angle(lat), Angle(ra2 - dra), Angle(max(-90, min(90, de2 - dde))), Angle(ra2), Angle(de2),
-                Angle(ra2 + dra), Angle(max(-90, min(90, de2 + dde))), Angle(h0), 0.0, Angle(theta0))
+        args = (Angle(lonw), Angle(lat), Angle((ra2 - dra) % 360.0), Angle(max(-90, min(90, de2 - dde))), Angle(ra2), Angle(de2),
+                Angle((ra2 + dra) % 360.0), Angle(max(-90, min(90, de2 + dde))), Angle(h0), 0.0, Angle(theta0))
         ok, det = True, None
         try:
             out = C.times_rise_transit_set(*args)
@@ -509,8 +578,10 @@ def b_general(rng, tier):
                     # grazing: the body crosses the altitude circle at a shallow angle, dh/dt = 15 deg/h * cos(lat) cos(dec) sin(H)
                     # below 1.5 deg/h (the single correction step of the method then leaves more than 0.005 deg)
                     grazing = math.cos(math.radians(lat)) * math.cos(math.radians(de2)) * math.sqrt(max(0.0, 1.0 - c * c)) < 0.1
-                    if not all(-0.5 <= t <= 24.5 for t in out):
-                        ok, det = False, ("times outside 0..24 h", out)
+                    # m in [0, 1] plus the corrections: transit within half an hour of the day, rising and setting within an
+                    # hour unless grazing (the correction is (h - h0) / (360 cos(dec) cos(lat) sin(H)) days)
+                    if not (-0.5 <= transit <= 24.5) or (not grazing and not all(-1.0 <= t <= 25.0 for t in (rising, setting))):
+                        ok, det = False, ("times outside the day", out)
                     elif abs(pos(transit)[1]) > 0.01:
                         ok, det = False, ("not on the meridian at transit", pos(transit))
                     elif not grazing and (abs(pos(rising)[0] - h0) > 0.005 or abs(pos(setting)[0] - h0) > 0.005):
